@@ -348,6 +348,25 @@ func TestC04_Chain(t *testing.T) {
 				if _, err := stack.Parser.Parse("did:sidetree", short.bytes()); err == nil {
 					t.Fatalf("C04 chain %s with a shortened reveal value %v accepted", kind, short.Req["revealValue"])
 				}
+				// ... nor is the (well-formed) reveal value of another key: no view of the request - submission, batch, the two
+				// chain look-ups - hands out a reveal value that is not the hash of the key the request is signed with
+				foreign := b.clone()
+				foreign.Req["revealValue"] = otherKey(t, b.SignKey).Reveal(alg)
+				for _, cand := range []*opBuild{short, foreign} {
+					raw := cand.bytes()
+					if _, err := stack.Parser.Parse("did:sidetree", raw); err == nil {
+						t.Fatalf("C04 chain %s whose reveal value %v is not the hash of its key accepted at submission", kind, cand.Req["revealValue"])
+					}
+					if _, err := stack.Parser.ParseOperation("did:sidetree", raw, true); err == nil {
+						t.Fatalf("C04 chain %s whose reveal value %v is not the hash of its key accepted in batch mode", kind, cand.Req["revealValue"])
+					}
+					if rv, err := linker.Parser.GetRevealValue(raw); err == nil {
+						t.Fatalf("C04 GetRevealValue hands out %q for a %s whose key does not hash to it", rv, kind)
+					}
+					if c, err := linker.Parser.GetCommitment(raw); err == nil {
+						t.Fatalf("C04 GetCommitment hands out %q for a %s whose reveal value is not the hash of its key", c, kind)
+					}
+				}
 			}
 			lk := linker
 			if rapid.IntRange(0, 2).Draw(t, "exactSizeLinker") == 0 {
